@@ -8,6 +8,7 @@ import (
 	"fmt"
 	"os"
 	"path/filepath"
+	"strings"
 	"testing"
 	"time"
 
@@ -112,6 +113,68 @@ func TestC11LargeLog(t *testing.T) {
 			run.Max("max_log_length", int64(L))
 			cleanup()
 		}
+	}
+	// a few events, one of them very large (5 MiB, then 9 MiB): no page is "full" before it holds
+	// at least the next event, whatever its size
+	for bi, kind := range []string{"memory-paged", "sqlite-paged", "sqlite-mem", "sqlite-file", "durable"} {
+		idx++
+		if !run.Mine(idx) {
+			continue
+		}
+		o, err := stores.Open(kind, scratch)
+		if err != nil {
+			t.Fatal(err)
+		}
+		offs := []ebu.Offset{ebu.OffsetOldest}
+		const L = 6
+		for k := 1; k <= L; k++ {
+			pad := ""
+			switch k {
+			case 3:
+				pad = strings.Repeat("0123456789abcdef", 5<<16)
+			case 5:
+				pad = strings.Repeat("0123456789abcdef", 9<<16)
+			}
+			off, err := o.Store.Append(ctx, &ebu.Event{Type: "c11.A", Data: json.RawMessage(fmt.Sprintf(`{"ID":%d,"pad":%q}`, k, pad)), Timestamp: time.Unix(int64(1700000000+k), 0).UTC()})
+			if err != nil {
+				t.Fatal(err)
+			}
+			offs = append(offs, off)
+		}
+		for _, rb := range []int{0, 2, 4} {
+			if kind == "durable" && rb > 0 {
+				continue // (a batch size below the server's chunk: recorded finding)
+			}
+			bo := []ebu.Option{ebu.WithStore(o.Store)}
+			if rb > 0 {
+				bo = append(bo, ebu.WithReplayBatchSize(rb))
+			}
+			bus := ebu.New(bo...)
+			for _, start := range []int{0, 1, 2, 4} {
+				if kind == "durable" && start > 0 {
+					continue // (resuming from an event offset on durable-streams: recorded finding of C10)
+				}
+				var ids []int
+				err := bus.Replay(ctx, offs[start], func(e *ebu.StoredEvent) error {
+					var d struct{ ID int }
+					json.Unmarshal(e.Data, &d)
+					ids = append(ids, d.ID)
+					return nil
+				})
+				var want []int
+				for k := start + 1; k <= L; k++ {
+					want = append(want, k)
+				}
+				if err != nil || fmt.Sprint(ids) != fmt.Sprint(want) {
+					run.Violation(strings.SplitN(kind, "-", 2)[0]+":nil-after-incomplete-delivery", fmt.Sprintf("store %s, six events of which the third is 5 MiB and the fifth 9 MiB, replay batch size %d, start after event %d: Replay returned %v after delivering %v (want %v)", kind, rb, start, err, ids, want),
+						map[string]any{"store": kind, "replay_batch": rb, "start": start, "delivered": ids})
+				}
+				run.Count("replays_over_very_large_events", 1)
+			}
+		}
+		run.Case(fmt.Sprintf("very-large-events|%s|%d", kind, bi), true)
+		o.Close()
+		o.Remove()
 	}
 	run.Exhaustive(true)
 }
